@@ -299,7 +299,11 @@ impl<'a> Ev<'a> {
                 }
                 R::F
             }
-            _ => return None,
+            // Unicode property rules: one character of that property (M9: through pest::unicode)
+            _ => match pest::unicode::by_name(n) {
+                Some(f) => self.ch(s, |c| f(c)),
+                None => return None,
+            },
         })
     }
 
